@@ -231,7 +231,7 @@ def flag_defs(body, sb):
     return vals
 
 
-def conditions_at(body, bb, _depth=0):
+def conditions_at(body, bb, _depth=0, expand=True):
     """normalised conditions of all switch edges dominating bb.  A test of a boolean flag that is assigned constants
     only is looked through: if exactly one assignment gives the flag the value the edge needs, the conditions of that
     assignment hold as well"""
@@ -239,7 +239,7 @@ def conditions_at(body, bb, _depth=0):
     for e, role, truth in body.guards_dominating(bb):
         cond = edge_condition(role, truth)
         out.append((e, cond))
-        if _depth < 3 and cond[0] in ("true", "false") and len(cond) > 1 and isinstance(cond[1], tuple) and cond[1][0] == "phi":
+        if expand and _depth < 3 and cond[0] in ("true", "false") and len(cond) > 1 and isinstance(cond[1], tuple) and cond[1][0] == "phi":
             fd = flag_defs(body, e[1])
             if fd:
                 want = cond[0] == "true"
@@ -435,7 +435,8 @@ def skip_conditions(body, bb):
     """conditions (other than loop-iterator Some edges, matches on parameters' enum discriminants and
     `if CHECKS`) that dominate block bb: [(edge, kind, text, role)]"""
     out = []
-    for e, cond in conditions_at(body, bb):
+    # the edges themselves, not what a flag test implies: an implied condition is not a second reason to skip
+    for e, cond in conditions_at(body, bb, expand=False):
         r = cond[1] if len(cond) > 1 else None
         if cond[0] in ("true", "false", "unknown") and isinstance(r, tuple):
             sr = strip_role(r)
